@@ -9,6 +9,7 @@ static int op_reset(int argc, char **argv)
    (void)argc; (void)argv;
    bits_reset();
    template_reset();
+   ieee_reset();
    bufr_set_debug(0);
    bufr_set_verbose(0);
    fputs("ok", bvp_out);
@@ -16,7 +17,7 @@ static int op_reset(int argc, char **argv)
    }
 static struct op_entry ops_core[] = { { "reset", op_reset }, { NULL, NULL } };
 
-static struct op_entry *tables[] = { ops_core, ops_bits, ops_template, NULL };
+static struct op_entry *tables[] = { ops_core, ops_bits, ops_template, ops_ieee, NULL };
 
 int bvp_parse_hex(const char *s, unsigned char **out)
    {
